@@ -136,3 +136,65 @@ def run(ctx):
         else:
             rs.unrec("expected two queue.put sites in _run_solver, found %d" % len(pn))
         ctx.floor(rs, 2)
+
+    if ctx.want("R2"):
+        rs = ctx.rule("R2", "the signalling channel read by the receive loop is created for this very solve")
+        recv = [c for c in calls_in(f) if attr_tail(c) in ("get", "get_nowait") and isinstance(c.func, ast.Attribute)
+                and "queue" in norm(c.func.value).lower()]
+        if not recv:
+            rs.unrec("no queue read found in _solve")
+        for c in recv[:1]:
+            r = c.func.value
+            fresh = False
+            if isinstance(r, ast.Name):
+                for n in ast.walk(f):
+                    tgt = n.targets[0] if isinstance(n, ast.Assign) else (n.target if isinstance(n, ast.AnnAssign) else None)
+                    if tgt is not None and isinstance(tgt, ast.Name) and tgt.id == r.id and isinstance(n.value, ast.Call) \
+                            and attr_tail(n.value) in ("Queue", "SimpleQueue", "JoinableQueue"):
+                        fresh = True
+            elif isinstance(r, ast.Attribute) and norm(r.value) == "self":
+                for n in ast.walk(f):
+                    if isinstance(n, ast.Assign) and norm(n.targets[0]) == norm(r) and isinstance(n.value, ast.Call) \
+                            and attr_tail(n.value) in ("Queue", "SimpleQueue", "JoinableQueue"):
+                        fresh = True
+            if fresh:
+                rs.ok({"channel": norm(r), "created_in": "_solve"})
+            else:
+                ctx.finding(rs, "%s._solve|channel-reused|%s" % (PF, norm(r)),
+                            "the receive loop reads %s, which is not created inside _solve: a verdict posted late by a "
+                            "loser of the previous solve is still queued and is taken as the answer of the next solve"
+                            % norm(r), method_loc(repo, cls, c))
+        ctx.floor(rs, 1)
+
+    if ctx.want("R5"):
+        rs = ctx.rule("R5", "reply reads of a text-interface member terminate when the solver process ends")
+        ts = "pysmt.smtlib.solver.SmtLibSolver"
+        ci = repo.cls(ts)
+        n_reads = 0
+        for nm in ci.order:
+            g = ci.own_func(nm)
+            if g is None:
+                continue
+            for lp in [n for n in ast.walk(g) if isinstance(n, ast.While)]:
+                reads = [c for c in calls_in(lp) if attr_tail(c) in ("readline", "read")]
+                if not reads:
+                    continue
+                n_reads += 1
+                exits = [n for n in ast.walk(lp) if isinstance(n, (ast.Break, ast.Raise, ast.Return))]
+                # the loop variable is a stripped line: '' both for a blank line and for end-of-file
+                tv = names_in(lp.test)
+                reassigned = [n for n in ast.walk(lp) if isinstance(n, ast.Assign) and isinstance(n.targets[0], ast.Name)
+                              and n.targets[0].id in tv and any(attr_tail(c) in ("readline", "read") for c in calls_in(n))]
+                if reassigned and not exits:
+                    ctx.finding(rs, "%s.%s|read-loop-without-eof-exit" % (ts, nm),
+                                "%s loops `while %s` re-reading a line from the solver: at end-of-file readline() keeps "
+                                "returning '' so the loop never ends when the solver process has exited - the member "
+                                "(and a portfolio waiting for it) blocks forever" % (nm, norm(lp.test)),
+                                method_loc(repo, ts, lp))
+                else:
+                    rs.ok({"method": nm, "loop": norm(lp.test), "eof_exit": True})
+        g = ci.own_func("_get_answer")
+        if g is not None and not any(isinstance(n, ast.While) for n in ast.walk(g)):
+            rs.ok({"_get_answer": "single readline per reply (EOF yields '' -> UnknownSolverAnswerError upstream)"})
+        ctx.floor(rs, 1)
+
